@@ -33,6 +33,10 @@ type NetEcho struct {
 	mu        sync.Mutex
 	obs       []Obs
 	runErr    chan error
+	// Timeout bounds one exchange (default 20 s); MaxLate is the worst wake-up lateness of a 1 ms
+	// heartbeat during the last Run (a timeout on a machine that was late is no verdict).
+	Timeout time.Duration
+	MaxLate time.Duration
 }
 
 var netEchoCounter int32
@@ -139,9 +143,28 @@ func (e *NetEcho) Run(frags [][]byte, _ sconn.End) ([]Obs, sconn.Result, *sconn.
 	done := make(chan struct{})
 	var out []byte
 	var rerr error
+	timeout := e.Timeout
+	if timeout == 0 {
+		timeout = 20 * time.Second
+	}
+	var maxLate int64
+	go func() {
+		for {
+			select {
+			case <-done:
+				return
+			default:
+			}
+			t0 := time.Now()
+			time.Sleep(time.Millisecond)
+			if late := int64(time.Since(t0) - time.Millisecond); late > atomic.LoadInt64(&maxLate) {
+				atomic.StoreInt64(&maxLate, late)
+			}
+		}
+	}()
 	go func() {
 		defer close(done)
-		c.SetReadDeadline(time.Now().Add(20 * time.Second)) //nolint:errcheck
+		c.SetReadDeadline(time.Now().Add(timeout)) //nolint:errcheck
 		out, rerr = io.ReadAll(c)
 	}()
 	pause := len(frags) <= 40
@@ -159,6 +182,7 @@ func (e *NetEcho) Run(frags [][]byte, _ sconn.End) ([]Obs, sconn.Result, *sconn.
 		}
 	}()
 	<-done
+	e.MaxLate = time.Duration(atomic.LoadInt64(&maxLate))
 	res.Output = out
 	if rerr != nil {
 		if ne, ok := rerr.(net.Error); ok && ne.Timeout() {
